@@ -70,16 +70,41 @@ class Built:
 
 def build(design, style="proc"):
     """Returns Built with .top (Module), .modules {name: Module}, .insts {(module, inst): object}."""
-    out = Built()
-    defs = {}
-    for b in design["bundles"]:
-        if b["name"] == "Diff":
-            defs["Diff"] = h.Diff  # `Pair` requires this very bundle type
-        else:
-            build_bundle_def(b["name"], b["tree"], defs)
-    mods, insts_all = {}, {}
-    ext_cache = {}
-    for mj in design["modules"]:
+    inc = Incremental(design, style)
+    while inc.remaining():
+        inc.next_module()
+    return inc.result()
+
+
+class Incremental:
+    """Builds the modules of a design one at a time (children first), so that histories can elaborate or export
+    some modules before their parents even exist."""
+
+    def __init__(self, design, style="proc"):
+        self.design, self.style = design, style
+        self.defs = {}
+        for b in design["bundles"]:
+            if b["name"] == "Diff":
+                self.defs["Diff"] = h.Diff  # `Pair` requires this very bundle type
+            else:
+                build_bundle_def(b["name"], b["tree"], self.defs)
+        self.mods, self.insts_all, self.ext_cache = {}, {}, {}
+        self.k = 0
+
+    def remaining(self):
+        return len(self.design["modules"]) - self.k
+
+    def result(self):
+        out = Built()
+        out.modules, out.insts, out.bundles = self.mods, self.insts_all, self.defs
+        out.top = self.mods.get(self.design["top"])
+        return out
+
+    def next_module(self):
+        design, style = self.design, self.style
+        defs, mods, insts_all, ext_cache = self.defs, self.mods, self.insts_all, self.ext_cache
+        mj = design["modules"][self.k]
+        self.k += 1
         attrs = []  # (name, object) in declaration order
         ns = {}
         for s in mj["sigs"]:
@@ -97,18 +122,25 @@ def build(design, style="proc"):
         insts = {}
         for ij in mj["insts"]:
             of = ij["of"]
-            if of["k"] == "module":
+            if of["k"] == "module" and of["name"] == mj["name"]:
+                target = None  # self-instantiation: patched below, once the module exists
+            elif of["k"] == "module":
                 target = mods[of["name"]]
             else:
                 key = repr(of["py"])
                 target = ext_cache.get(key) or leaf_target(of)
                 ext_cache[key] = target
+            placeholder = target is None
+            if placeholder:
+                target = h.Module(name="placeholder")
             if "array" in ij:
                 obj = h.InstanceArray(target, ij["array"])
             elif "pair" in ij:
                 obj = h.Pair(target)
             else:
                 obj = h.Instance(of=target)
+            if placeholder:
+                obj._self_ref = True
             insts[ij["n"]] = obj
             attrs.append((ij["n"], obj))
             ns[ij["n"]] = obj
@@ -140,6 +172,12 @@ def build(design, style="proc"):
                 return r
             if k == "anon":
                 return h.AnonymousBundle(**{f: mk(v) for f, v in c["fields"]})
+            if k == "orphan":
+                sig = h.Signal(width=c["w"], name="orph")
+                if c.get("owner") == "other":
+                    other = h.Module(name="SomeOtherModule")
+                    other.add(sig)
+                return sig
             raise ValueError(k)
 
         def assemble():
@@ -149,6 +187,9 @@ def build(design, style="proc"):
                 m = h.Module(name=mj["name"])
                 for n, o in attrs:
                     setattr(m, n, o)
+            for o in insts.values():
+                if getattr(o, "_self_ref", False):
+                    o.of = m  # circular instantiation
             # connections are made once every instance exists (port references need their instance)
             for ij in mj["insts"]:
                 for port, c in ij["conns"]:
@@ -163,9 +204,9 @@ def build(design, style="proc"):
             m = h.generator(body)()
         else:
             m = assemble()
+        if "label" in mj:
+            m.name = mj["label"]  # unnamed (None) or clashing module names
         mods[mj["name"]] = m
         for n, o in insts.items():
             insts_all[(mj["name"], n)] = o
-    out.modules, out.insts, out.bundles = mods, insts_all, defs
-    out.top = mods[design["top"]]
-    return out
+        return mods[mj["name"]]
